@@ -84,6 +84,122 @@ pub fn c13_unit() -> Unit {
     )
 }
 
+/// Start the binary with `-s` on a free loopback port and connect to it (a busy port makes the binary give up at
+/// once, so a few ports are tried).
+fn spawn_with_socket(bin: &str, elf: &std::path::Path, extra: &[&str], salt: u64) -> Result<(std::process::Child, std::net::TcpStream), String> {
+    for attempt in 0..6u64 {
+        let port = 31000 + ((std::process::id() as u64 * 13 + salt * 977 + attempt * 3331) % 20000);
+        let mut args: Vec<String> = vec!["-e".into(), elf.to_str().unwrap_or("").into(), "-s".into(), "-p".into(), port.to_string(), "--log".into(), "off".into()];
+        args.extend(extra.iter().map(|x| x.to_string()));
+        let child = std::process::Command::new(bin).args(&args).env("RUST_BACKTRACE", "0").stdout(std::process::Stdio::null()).stderr(std::process::Stdio::null()).spawn();
+        let mut child = match child {
+            Ok(c) => c,
+            Err(e) => return Err(format!("cannot start the binary: {}", e)),
+        };
+        for _ in 0..600 {
+            if let Ok(s) = std::net::TcpStream::connect(("127.0.0.1", port as u16)) {
+                return Ok((child, s));
+            }
+            if let Ok(Some(_)) = child.try_wait() {
+                break; // the binary ended already (port in use)
+            }
+            std::thread::sleep(std::time::Duration::from_millis(5));
+        }
+        let _ = child.kill();
+        let _ = child.wait();
+    }
+    Err("could not connect to the emulator's control socket on six ports".into())
+}
+
+/// C13 over the control socket: what a client receives up to the end of the connection is exactly the message
+/// sequence of the in-process run, also when the run ends (normally or with a failing instruction) right after a message.
+pub fn c13_socket_unit(thorough: bool) -> Unit {
+    let configs: Vec<(u32, usize)> = vec![(1, 0), (3, 2), (3, 4), (3, 6), (50, 0), (50, 2), (2000, 0), (2000, 2)];
+    let reps = if thorough { 40 } else { 8 };
+    let dom = format!(
+        "the repository's own release binary with -s, guest = port write in a loop of {{1, 3, 50, 2000}} iterations ending normally or in a failing instruction a few instructions after the last message ({} guests x {} repetitions): the lines a loopback client receives until the connection ends must be exactly the message sequence of the in-process run, and the exit status must tell failure from success (OS scheduling sampled, guests enumerated)",
+        configs.len(),
+        reps
+    );
+    Unit::new("real-binary/socket-stream", configs.len() as u64, &dom, move |ctx, chunk| {
+        use std::io::Read;
+        let bin = match repo_binary() {
+            Some(b) => b,
+            None => {
+                ctx.machinery("VERIF_REPO_BIN not set / repository binary not built".into());
+                return;
+            }
+        };
+        let (n, fail) = configs[chunk as usize];
+        let mut pair = runloop::Pair::new();
+        let p = runloop::build(&ctx.isa, 4, n, fail);
+        let (o, v) = runloop::run_checked(&mut pair, &p, 50_000_000);
+        if let Some(m) = v {
+            ctx.custom_violation("c13", format!("in-process reference run failed: {}", m), json!({"shape": 4, "n": n, "fail": fail}), json!(null), json!(null));
+            return;
+        }
+        let file = elf_with_code(&p.code, p.exit_addr - BASE, 0x400, 0);
+        let path = scratch(&format!("sockstream{}", chunk));
+        let _ = std::fs::write(&path, &file);
+        for rep in 0..reps as u64 {
+            let (mut child, mut stream) = match spawn_with_socket(&bin, &path, &[], chunk * 64 + rep) {
+                Ok(x) => x,
+                Err(m) => {
+                    ctx.machinery(m);
+                    break;
+                }
+            };
+            let _ = stream.set_read_timeout(Some(std::time::Duration::from_secs(30)));
+            let mut buf: Vec<u8> = Vec::new();
+            let mut tmp = [0u8; 65536];
+            loop {
+                match stream.read(&mut tmp) {
+                    Ok(0) => break,
+                    Ok(k) => buf.extend_from_slice(&tmp[..k]),
+                    Err(_) => break,
+                }
+            }
+            let t0 = std::time::Instant::now();
+            let mut status = None;
+            while t0.elapsed().as_secs() < 20 {
+                if let Ok(Some(st)) = child.try_wait() {
+                    status = Some(st);
+                    break;
+                }
+                std::thread::sleep(std::time::Duration::from_millis(2));
+            }
+            if status.is_none() {
+                let _ = child.kill();
+                let _ = child.wait();
+            }
+            ctx.st.cases += 1;
+            ctx.st.nontrivial += 1;
+            let wire = String::from_utf8_lossy(&buf).to_string();
+            let mut lines: Vec<&str> = wire.split('\n').collect();
+            let complete_last = lines.last() == Some(&"");
+            if complete_last {
+                lines.pop();
+            }
+            let got: Vec<String> = lines.iter().map(|l| super::sock::unescape(l)).collect();
+            let case = json!({"shape": 4, "n": n, "fail": fail, "real_binary": true, "socket": true, "repetition": rep});
+            let verdict = if status.map(|s| s.success()) != Some(fail == 0) {
+                Some(format!("guest with fail={} made the binary exit with {:?}", fail, status.map(|s| s.code())))
+            } else if got != o.messages || !complete_last {
+                let k = got.iter().zip(o.messages.iter()).position(|(a, b)| a != b).unwrap_or(got.len().min(o.messages.len()));
+                Some(format!("the socket client received {} lines, the run produced {} messages; first difference at {}: got {:?}, expected {:?} (last line complete: {})", got.len(), o.messages.len(), k, got.get(k), o.messages.get(k), complete_last))
+            } else {
+                None
+            };
+            if let Some(m) = verdict {
+                ctx.custom_violation("c13", m, case, json!(null), json!(null));
+                break;
+            }
+        }
+        let _ = std::fs::remove_file(&path);
+        ctx.sample(json!({"real_binary": true, "socket": true, "n": n, "fail": fail, "messages": o.messages.len()}));
+    })
+}
+
 /// Guest for the socket scenario: poll a cell; when non-zero, write that byte to stdout (MES write),
 /// clear the cell; exit after writing 'Z'.
 fn socket_guest(isa: &Isa) -> (Vec<u8>, u32, u32) {
